@@ -1186,6 +1186,9 @@ def real_class(cls):
         return r
     if cls is sym_int:
         return int
+    r = getattr(cls, "_real", None)
+    if r is not None and type(cls).__name__ == "ShadowType":
+        return r
     for h in _UNWRAP_HOOKS:
         r = h(cls)
         if r is not None:
